@@ -303,7 +303,7 @@ func unmarshalData[T any](envelope string, raw []byte, empty *T) (*T, error) {
 
 // ProposalSpec describes what one beacon node answers to a proposal request.
 type ProposalSpec struct {
-	Outcome        string      `json:"outcome"` // ok | error
+	Outcome        string      `json:"outcome"` // ok | one of errKinds
 	Version        string      `json:"version"`
 	Blinded        bool        `json:"blinded"`
 	ConsensusValue string      `json:"consensus_value"`
@@ -340,7 +340,7 @@ func genValue(t *rapid.T, label string) string {
 
 func genProposalSpec(t *rapid.T, slot uint64, randao byte) ProposalSpec {
 	s := ProposalSpec{
-		Outcome:        rapid.SampledFrom([]string{"ok", "ok", "ok", "ok", "ok", "ok", "ok", "ok", "ok", "error"}).Draw(t, "proposalOutcome"),
+		Outcome:        "ok",
 		Version:        rapid.SampledFrom(versions).Draw(t, "proposalVersion"),
 		Blinded:        rapid.IntRange(0, 1).Draw(t, "blinded") == 0,
 		ConsensusValue: genValue(t, "consensusValue"),
@@ -348,6 +348,9 @@ func genProposalSpec(t *rapid.T, slot uint64, randao byte) ProposalSpec {
 		Envelope:       rapid.SampledFrom([]string{"data", "data", "data", "data", "data", "data", "data", "data", "data", "data", "data", "data", "data", "data", "null", "missing"}).Draw(t, "envelope"),
 		Params:         genBlockParams(t, slot, randao),
 		Muts:           genMutations(t, "proposalMut"),
+	}
+	if rapid.IntRange(0, 9).Draw(t, "proposalFails") == 0 {
+		s.Outcome = genErrKind(t, "proposalErrKind")
 	}
 	if rapid.IntRange(0, 19).Draw(t, "slotDeltaOn") == 0 {
 		s.SlotDelta = rapid.SampledFrom([]int{-1, 1}).Draw(t, "slotDelta")
@@ -361,7 +364,7 @@ func genProposalSpec(t *rapid.T, slot uint64, randao byte) ProposalSpec {
 // the client's own consistency checks (slot, RANDAO reveal).
 func buildProposal(s *ProposalSpec, optsSlot phase0.Slot, optsRandao phase0.BLSSignature) (*api.VersionedProposal, error) {
 	if s.Outcome != "ok" {
-		return nil, errors.New("scripted proposal failure")
+		return nil, clientError(s.Outcome, "v3/validator/blocks")
 	}
 	p := s.Params
 	p.Slot = uint64(int64(p.Slot) + int64(s.SlotDelta))
@@ -462,16 +465,23 @@ func buildProposal(s *ProposalSpec, optsSlot phase0.Slot, optsRandao phase0.BLSS
 
 // SignedBlockSpec describes the answer to a SignedBeaconBlock request.
 type SignedBlockSpec struct {
-	Outcome  string      `json:"outcome"` // ok | error
+	Outcome  string      `json:"outcome"` // ok | one of errKinds
 	Version  string      `json:"version"`
 	Envelope string      `json:"envelope"`
 	Params   BlockParams `json:"params"`
 	Muts     []Mutation  `json:"muts,omitempty"`
 }
 
+func genBlockOutcome(t *rapid.T) string {
+	if rapid.IntRange(0, 3).Draw(t, "blockFails") == 0 {
+		return genErrKind(t, "blockErrKind")
+	}
+	return "ok"
+}
+
 func genSignedBlockSpec(t *rapid.T, slot uint64) SignedBlockSpec {
 	return SignedBlockSpec{
-		Outcome:  rapid.SampledFrom([]string{"ok", "ok", "ok", "ok", "ok", "ok", "error"}).Draw(t, "blockOutcome"),
+		Outcome:  genBlockOutcome(t),
 		Version:  rapid.SampledFrom(versions).Draw(t, "blockVersion"),
 		Envelope: rapid.SampledFrom([]string{"data", "data", "data", "data", "data", "data", "data", "data", "null", "missing"}).Draw(t, "blockEnvelope"),
 		Params:   genBlockParams(t, slot, 0x61),
@@ -483,7 +493,7 @@ func genSignedBlockSpec(t *rapid.T, slot uint64) SignedBlockSpec {
 // (JSON path): it has no consistency checks after decoding.
 func buildSignedBlock(s *SignedBlockSpec) (*spec.VersionedSignedBeaconBlock, error) {
 	if s.Outcome != "ok" {
-		return nil, errors.New("scripted block failure")
+		return nil, clientError(s.Outcome, "v2/beacon/blocks")
 	}
 	p := s.Params
 	tree := map[string]any{"message": blockJSON(s.Version, false, &p), "signature": hexN(96, 0x71)}
